@@ -1321,3 +1321,102 @@ Lemma thm_unique_preserved :
   (forall sc mx ps c, unique_ids c -> unique_ids (fst (fan_update sc mx ps c))) /\
   (forall ids c, unique_ids c -> unique_ids (fst (fan_delete ids c))).
 Proof. exact (conj thm_unique_insert (conj thm_unique_update thm_unique_delete)). Qed.
+
+(* ================================================================== *)
+(* J. insert against the collection-level reference                    *)
+
+Lemma sget_fold_set ps : forall s id, NoDup (map fst ps) ->
+  st_get id (fold_left (fun acc p => st_set (fst p) (snd p) acc) ps s) =
+  match st_get id ps with Some d => Some d | None => st_get id s end.
+Proof.
+  induction ps as [|[i d] ps IH]; intros s id Hn; [reflexivity|].
+  inversion Hn as [|? ? Hni Hnd]; subst. cbn [fold_left fst snd]. rewrite (IH _ _ Hnd), sget_set.
+  cbn [st_get]. destruct (bytes_eqb id i) eqn:E.
+  - apply bytes_eqb_eq in E. subst i. destruct (st_get id ps) eqn:G; [|reflexivity].
+    exfalso. apply Hni. change (map fst ps) with (store_ids ps). apply sget_In. congruence.
+  - reflexivity.
+Qed.
+
+Lemma has_dup_NoDup l : has_dup l = false <-> NoDup l.
+Proof.
+  induction l as [|x l IH]; cbn; [split; [constructor|reflexivity]|].
+  rewrite orb_false_iff, IH. split.
+  - intros [H1 H2]. constructor; [|exact H2]. intros Hi. apply existsb_beq_In in Hi. congruence.
+  - intros H. inversion H as [|? ? Hn Hd]; subst. split; [|exact Hd].
+    destruct (existsb (bytes_eqb x) l) eqn:E; [|reflexivity]. apply existsb_beq_In in E. contradiction.
+Qed.
+
+Lemma insert_spec_accepts sc ps s :
+  NoDup (map fst ps) -> (forall id, In id (map fst ps) -> ~ In id (store_ids s)) ->
+  forallb (fun p => well_typed sc (snd p)) ps = true ->
+  insert_spec sc ps s = (fold_left (fun acc p => st_set (fst p) (snd p) acc) ps s, SOk []).
+Proof.
+  intros Hn Hf Ht. unfold insert_spec. rewrite (proj2 (has_dup_NoDup _) Hn), Ht.
+  assert (E : existsb (fun p => st_mem (fst p) s) ps = false).
+  { destruct (existsb (fun p => st_mem (fst p) s) ps) eqn:E; [|reflexivity]. exfalso.
+    apply existsb_exists in E. destruct E as [p [Hp Hm]]. apply smem_In in Hm.
+    apply (Hf (fst p)); [now apply in_map|exact Hm]. }
+  rewrite E. reflexivity.
+Qed.
+
+Lemma shard_insert_get sc p sh id :
+  sh_up sh = true -> NoDup (map fst p) -> (forall x, In x (map fst p) -> ~ In x (store_ids (sh_store sh))) ->
+  forallb (fun q => well_typed sc (snd q)) p = true ->
+  st_get id (sh_store (shard_insert sc p sh)) =
+  match st_get id p with Some d => Some d | None => st_get id (sh_store sh) end.
+Proof.
+  intros Hu Hn Hf Ht. unfold shard_insert. rewrite Hu, (insert_spec_accepts sc p _ Hn Hf Ht). cbn [sh_store].
+  now apply sget_fold_set.
+Qed.
+
+Lemma map_fst_concat (parts : list (list (uuid * doc))) :
+  map fst (concat parts) = concat (map (map fst) parts).
+Proof. apply concat_map. Qed.
+
+Lemma thm_insert_reference : forall sc parts c,
+  all_up c = true ->
+  NoDup (map fst (concat parts)) ->
+  (forall id, In id (map fst (concat parts)) -> ~ In id (all_ids c)) ->
+  Forall (fun p => forallb (fun q => well_typed sc (snd q)) p = true) parts ->
+  (* every new point is found, with its document; every other lookup is as before *)
+  (forall id, st_get id (flat (fan_insert sc parts c)) =
+              match st_get id (concat parts) with Some d => Some d | None => st_get id (flat c) end) /\
+  (* and this is the insert of C01 on the collection as one store *)
+  insert_spec sc (concat parts) (flat c) =
+    (fold_left (fun acc p => st_set (fst p) (snd p) acc) (concat parts) (flat c), SOk []) /\
+  (forall id, st_get id (flat (fan_insert sc parts c)) =
+              st_get id (fst (insert_spec sc (concat parts) (flat c)))).
+Proof.
+  intros sc parts c Hup Hn Hf Ht.
+  assert (Hget : forall id, st_get id (flat (fan_insert sc parts c)) =
+              match st_get id (concat parts) with Some d => Some d | None => st_get id (flat c) end).
+  { revert c Hup Hn Hf Ht. induction parts as [|p parts IH]; intros c Hup Hn Hf Ht id; [reflexivity|].
+    inversion Ht as [|? ? Htp Htr]; subst.
+    cbn [concat] in Hn, Hf. rewrite map_app in Hn, Hf. apply NoDup_app_iff in Hn. destruct Hn as [Hnp [Hnr Hd]].
+    assert (Hcross : st_get id p <> None -> st_get id (concat parts) = None).
+    { intros H. destruct (st_get id (concat parts)) eqn:G; [|reflexivity]. exfalso.
+      apply (Hd id); [apply (sget_In id p); exact H|]. apply (sget_In id (concat parts)). congruence. }
+    destruct c as [|sh c]; cbn [fan_insert concat].
+    - rewrite flat_cons, !sget_app.
+      rewrite (shard_insert_get sc p (mkShard [] true) id eq_refl Hnp (fun _ _ H => H) Htp). cbn [sh_store st_get].
+      rewrite (IH [] eq_refl Hnr (fun _ _ H => H) Htr id). cbn [flat map concat st_get].
+      destruct (st_get id p); reflexivity.
+    - cbn in Hup. apply andb_true_iff in Hup. destruct Hup as [Hu Hup].
+      assert (Hfp : forall x, In x (map fst p) -> ~ In x (store_ids (sh_store sh))).
+      { intros x Hx Hx'. apply (Hf x); [apply in_or_app; now left|]. rewrite all_ids_cons. apply in_or_app. now left. }
+      assert (Hfr : forall x, In x (map fst (concat parts)) -> ~ In x (all_ids c)).
+      { intros x Hx Hx'. apply (Hf x); [apply in_or_app; now right|]. rewrite all_ids_cons. apply in_or_app. now right. }
+      rewrite !flat_cons, !sget_app, (shard_insert_get sc p sh id Hu Hnp Hfp Htp), (IH c Hup Hnr Hfr Htr id).
+      destruct (st_get id p) eqn:G1; [reflexivity|].
+      destruct (st_get id (sh_store sh)) eqn:G2; [|reflexivity].
+      destruct (st_get id (concat parts)) eqn:G3; [|reflexivity]. exfalso.
+      apply (Hf id).
+      + apply in_or_app. right. apply (sget_In id (concat parts)). congruence.
+      + rewrite all_ids_cons. apply in_or_app. left. apply sget_In. congruence. }
+  assert (Hspec : insert_spec sc (concat parts) (flat c) =
+    (fold_left (fun acc p => st_set (fst p) (snd p) acc) (concat parts) (flat c), SOk [])).
+  { apply insert_spec_accepts; [exact Hn|now rewrite flat_ids|].
+    clear - Ht. induction Ht as [|p parts Hp _ IH]; [reflexivity|]. cbn [concat]. rewrite forallb_app, Hp, IH. reflexivity. }
+  split; [exact Hget|]. split; [exact Hspec|].
+  intros id. rewrite Hget, Hspec. cbn [fst]. now rewrite sget_fold_set.
+Qed.
